@@ -9,6 +9,7 @@ import (
 	"math"
 	"sort"
 	"strings"
+	"sync"
 	"unicode/utf8"
 )
 
@@ -52,12 +53,58 @@ func FromTagged(v any) any {
 		return out
 	case "err":
 		return ErrValue{}
+	case "enc", "hash":
+		// uninterpreted texts of Builtins.tla: only their laws are fixed
+		b, _ := json.Marshal(m)
+		o := Opaque{Kind: m["t"].(string), Key: string(b)}
+		if n, ok := m["n"]; ok {
+			o.HexLen = int(num(n))
+		}
+		return o
 	}
 	panic(fmt.Sprintf("unknown tag in %#v", v))
 }
 
 // ErrValue is the decoded form of the specification's Err.
 type ErrValue struct{}
+
+// Opaque is an uninterpreted text of the specification (ENCODE / HASH result). A real
+// value matches it when it is a string of the right shape, and the same specification
+// value is matched by the same string every time (purity).
+type Opaque struct {
+	Kind   string
+	Key    string
+	HexLen int
+}
+
+var (
+	opaqueMu   sync.Mutex
+	opaqueSeen = map[string]string{}
+)
+
+func (o Opaque) matches(got any) bool {
+	s, ok := got.(string)
+	if !ok || s == "" {
+		return false
+	}
+	if o.Kind == "hash" {
+		if len(s) != o.HexLen {
+			return false
+		}
+		for _, c := range s {
+			if !(c >= '0' && c <= '9' || c >= 'a' && c <= 'f') {
+				return false
+			}
+		}
+	}
+	opaqueMu.Lock()
+	defer opaqueMu.Unlock()
+	if prev, ok := opaqueSeen[o.Key]; ok {
+		return prev == s
+	}
+	opaqueSeen[o.Key] = s
+	return true
+}
 
 func num(v any) float64 {
 	switch x := v.(type) {
@@ -270,6 +317,8 @@ func equal(got, want any, depth int) bool {
 		return false
 	}
 	switch w := want.(type) {
+	case Opaque:
+		return w.matches(got)
 	case nil:
 		return got == nil
 	case bool:
@@ -382,6 +431,8 @@ func canon(b *strings.Builder, v any, depth int) {
 			canon(b, x[k], depth+1)
 		}
 		b.WriteByte('}')
+	case Opaque:
+		b.WriteString("<" + x.Kind + ">")
 	default:
 		fmt.Fprintf(b, "<%T>", v)
 	}
